@@ -252,6 +252,7 @@ func runC06(p *kit.Program, r *kit.Report) {
 	r.Count("admission_string_parameters", nParams)
 	r.Require(nParams >= 3, "floor: %d admitted string parameters found (expected pattern, key, target)", nParams)
 	c06more(p, r, counted, owner)
+	c06family(p, r)
 	kit.DumpObs(r)
 }
 
